@@ -213,7 +213,13 @@ inductive Form where
   | ndarray     -- numpy array (0-d for a scalar option)
   | tensor      -- tf.Tensor (tf.constant)
   | variable    -- tf.Variable
+  | array       -- numpy array with >= 1 dimension (per-channel `alpha`, `post_training_scale`, …)
   deriving DecidableEq, Repr, Inhabited
+
+/-- forms that `serialize_keras_object` wraps into a tagged dictionary (`__tensor__` for a
+    tf.Tensor, `__numpy__` for a numpy array with at least one dimension; a 0-d array and a numpy
+    scalar leave through `.item()`) -/
+def Form.tagged (f : Form) : Bool := f == .tensor || f == .array
 
 /-- form of the value `get_config()` emits for key `k`, given the form of the stored attribute:
     `qnoise_factor` held in a `tf.Variable` is exported through `.numpy()` by every class that
@@ -229,20 +235,47 @@ def exportForm (_c : Cls) (k : String) (f : Form) : Form :=
 inductive KerasOutcome where
   | ok                               -- from_config receives the values
   | serializeRaises                  -- serialize_keras_object: TypeError (tf.Variable)
-  | arrivesAsDict (keys : List String)  -- tf.Tensor → {"class_name": "__tensor__", …} dict
+  | arrivesAsDict (keys : List String)  -- tf.Tensor / ndarray → {"class_name": "__tensor__" / "__numpy__", …}
   deriving DecidableEq, Repr
 
 /-- `deserialize_keras_object(serialize_keras_object(q))` on a configuration whose values have
-    the given forms: variables cannot be serialised, tensors are serialised into `__tensor__`
-    dictionaries that are handed to `cls.from_config` undecoded -/
+    the given forms: variables cannot be serialised, tensors and numpy arrays of >= 1 dimension
+    are serialised into `__tensor__` / `__numpy__` dictionaries that are handed to
+    `cls.from_config` undecoded -/
 def kerasOutcome (forms : List (String × Form)) : KerasOutcome :=
   if forms.any (fun p => p.2 == .variable) then .serializeRaises
-  else match (forms.filter fun p => p.2 == .tensor).map Prod.fst with
+  else match (forms.filter fun p => p.2.tagged).map Prod.fst with
     | [] => .ok
     | ks => .arrivesAsDict ks
 
 /-- forms of the emitted configuration, from the forms of the stored attributes -/
 def configForms (c : Cls) (stored : List (String × Form)) : List (String × Form) :=
   (serialised c).map fun k => (k, exportForm c k ((stored.lookup k).getD .literal))
+
+/-! ### value forms through the two dictionary routes (strengthening round 2, seed C09-8) -/
+
+/-- form in which the quantizer rebuilt by `cls.from_config(cfg)` / `get_quantizer(dict)` holds
+    option `k`, given the form `f` of the configuration value: every constructor stores what it
+    is handed (`self.k = k`); the only conversion on the way in is `quantized_bits.from_config`,
+    which turns a `post_training_scale` that is not None back into an ndarray.
+    `__call__` discriminates on the form (`isinstance(self.alpha, np.ndarray)` selects the
+    per-channel branch of `ternary`, `binary`, `_get_least_squares_scale`; everything else goes
+    through `float(self.alpha)`), so the form is part of what a round trip has to restore. -/
+def importForm (_c : Cls) (k : String) (f : Form) (isNone : Bool) : Form :=
+  -- (`post_training_scale` is a key of `quantized_bits` only; like `exportForm` the rule is
+  --  stated per key, the class parameter is kept for symmetry)
+  if k == "post_training_scale" && !isNone then .array else f
+
+/-- form of option `k` in the quantizer rebuilt through a dictionary route, from the form the
+    original holds it in -/
+def rebuiltForm (c : Cls) (k : String) (f : Form) (isNone : Bool) : Form :=
+  importForm c k (exportForm c k f) isNone
+
+/-- forms of all serialised options of the rebuilt quantizer (`nones`: the options whose value
+    is None) -/
+def rebuiltForms (c : Cls) (stored : List (String × Form)) (nones : List String) :
+    List (String × Form) :=
+  (serialised c).map fun k =>
+    (k, rebuiltForm c k ((stored.lookup k).getD .literal) (nones.contains k))
 
 end QKV.Py
